@@ -10,7 +10,7 @@ from rv.oracle.sim import Net
 
 RULE = (
     "random lint-clean circuits (constants, blackbox pins, some cyclic) with 0..8 startpoints (thorough ..12); "
-    "model_count under random assumption sets (inputs / internal / outputs / contradictory) is compared with a "
+    "model_count under random assumption sets (inputs / internal / outputs / contradictory; values as bool or as int 0/1) is compared with a "
     "brute-force count of startpoint valuations that extend to a consistent valuation; signal_probability(approx=False) "
     "with an exact Fraction; the DIMACS file handed to the `approxmc` executable is captured at the process boundary, its "
     "header is checked against its body and its exact projected count on the `c ind` set is compared with the same brute force. "
@@ -172,6 +172,9 @@ def decide(case, ctx, c, first):
     for ai, A in enumerate(case["assumps"]):
         want, sp = brute_count(net, A)
         Aarg = dict(A)
+        if A and (ai + len(A)) % 3 == 1:
+            Aarg = {n: int(v) for n, v in A.items()}  # "dict of str:int" per the docstring
+            ctx.count("assumptions_as_int")
         if case["kind"] == "wide_approx":
             ok, got = True, want  # the library's enumeration is skipped for this class
         else:
@@ -196,7 +199,7 @@ def decide(case, ctx, c, first):
         if case["kind"] == "wide_approx":
             ctx.count("approx_with_10plus_startpoints")
         before = set(os.listdir(ctx.logdir))
-        ok, got = ctx.call(cg.sat.approx_model_count, c, dict(A))
+        ok, got = ctx.call(cg.sat.approx_model_count, c, dict(Aarg))
         new = sorted(f for f in set(os.listdir(ctx.logdir)) - before if f.endswith(".cnf"))
         ctx.count("cmp:approx_handoff")
         if not ok:
@@ -256,5 +259,5 @@ def decide(case, ctx, c, first):
 
 
 def gates(counters, table, tier):
-    need = ["class:shared_parity", "approx_with_10plus_startpoints", "requery_after_set_type", "class:acyclic", "class:pins", "class:cyclic", "class:no_startpoints", "count_zero", "count_pos", "assume:internal", "dimacs_counted", "prob_mid", "cmp:signal_probability"]
+    need = ["class:shared_parity", "approx_with_10plus_startpoints", "requery_after_set_type", "class:acyclic", "class:pins", "class:cyclic", "class:no_startpoints", "count_zero", "count_pos", "assume:internal", "dimacs_counted", "prob_mid", "cmp:signal_probability", "assumptions_as_int"]
     return [f"{k} seen {counters.get(k, 0)} times" for k in need if counters.get(k, 0) < 3]
